@@ -165,3 +165,124 @@ TWINS = {
     "rename-locals": twin_rename_locals,
     "inject-logging": twin_inject_logging,
 }
+
+
+class _IfElseInverter(ast.NodeTransformer):
+    """`if c: A else: B`  ->  `if not c: B else: A`   (only plain if/else, not elif chains): behaviour-preserving."""
+
+    def visit_If(self, node):
+        self.generic_visit(node)
+        if node.orelse and not (len(node.orelse) == 1 and isinstance(node.orelse[0], ast.If)):
+            t = node.test
+            if isinstance(t, ast.UnaryOp) and isinstance(t.op, ast.Not):
+                nt = t.operand
+            else:
+                nt = ast.UnaryOp(op=ast.Not(), operand=t)
+            return ast.copy_location(ast.If(test=nt, body=node.orelse, orelse=node.body), node)
+        return node
+
+
+def twin_invert_if_else(tmp: str) -> None:
+    d = os.path.join(tmp, PKG)
+    for f in os.listdir(d):
+        p = os.path.join(d, f)
+        tree = _IfElseInverter().visit(ast.parse(open(p).read()))
+        ast.fix_missing_locations(tree)
+        src = ast.unparse(tree) + "\n"
+        compile(src, p, "exec")
+        open(p, "w").write(src)
+
+
+class _AugAssignExpander(ast.NodeTransformer):
+    """`x += e` -> `x = x + e` for plain names and attributes of self (no subscripts: evaluated twice)."""
+
+    def visit_AugAssign(self, node):
+        self.generic_visit(node)
+        t = node.target
+        if isinstance(t, ast.Name) or (isinstance(t, ast.Attribute) and isinstance(t.value, ast.Name)):
+            load = ast.Name(id=t.id, ctx=ast.Load()) if isinstance(t, ast.Name) else ast.Attribute(value=ast.Name(id=t.value.id, ctx=ast.Load()), attr=t.attr, ctx=ast.Load())
+            return ast.copy_location(ast.Assign(targets=[t], value=ast.BinOp(left=load, op=node.op, right=node.value)), node)
+        return node
+
+
+def twin_expand_augassign(tmp: str) -> None:
+    d = os.path.join(tmp, PKG)
+    for f in os.listdir(d):
+        p = os.path.join(d, f)
+        tree = _AugAssignExpander().visit(ast.parse(open(p).read()))
+        ast.fix_missing_locations(tree)
+        src = ast.unparse(tree) + "\n"
+        compile(src, p, "exec")
+        open(p, "w").write(src)
+
+
+EXTRA_TWINS = {
+    "invert-if-else": twin_invert_if_else,
+    "expand-augassign": twin_expand_augassign,
+}
+
+
+class _CompareMirror(ast.NodeTransformer):
+    """`a == b` -> `b == a`, `a < b` -> `b > a` ... (single comparisons between side-effect-free operands)."""
+
+    MIRROR = {ast.Eq: ast.Eq, ast.NotEq: ast.NotEq, ast.Lt: ast.Gt, ast.Gt: ast.Lt, ast.LtE: ast.GtE, ast.GtE: ast.LtE}
+
+    def visit_Compare(self, node):
+        self.generic_visit(node)
+        if len(node.ops) == 1 and type(node.ops[0]) in self.MIRROR and not any(isinstance(x, (ast.Call, ast.Await)) for s in (node.left, node.comparators[0]) for x in ast.walk(s)):
+            return ast.copy_location(ast.Compare(left=node.comparators[0], ops=[self.MIRROR[type(node.ops[0])]()], comparators=[node.left]), node)
+        return node
+
+
+def twin_mirror_compare(tmp: str) -> None:
+    d = os.path.join(tmp, PKG)
+    for f in os.listdir(d):
+        p = os.path.join(d, f)
+        tree = _CompareMirror().visit(ast.parse(open(p).read()))
+        ast.fix_missing_locations(tree)
+        src = ast.unparse(tree) + "\n"
+        compile(src, p, "exec")
+        open(p, "w").write(src)
+
+
+class _SwapIndependent(ast.NodeTransformer):
+    """Swap two adjacent plain assignments `a = e1; b = e2` (a, b distinct local names, neither expression reads the other
+    target, no call / await / attribute store in either): order is unobservable."""
+
+    def _swap(self, body):
+        i = 0
+        while i + 1 < len(body):
+            s1, s2 = body[i], body[i + 1]
+            if all(isinstance(s, ast.Assign) and len(s.targets) == 1 and isinstance(s.targets[0], ast.Name) and not any(isinstance(x, (ast.Call, ast.Await, ast.Yield, ast.NamedExpr)) for x in ast.walk(s.value)) for s in (s1, s2)):
+                a, b = s1.targets[0].id, s2.targets[0].id
+                r1 = {x.id for x in ast.walk(s1.value) if isinstance(x, ast.Name)}
+                r2 = {x.id for x in ast.walk(s2.value) if isinstance(x, ast.Name)}
+                if a != b and a not in r2 and b not in r1:
+                    body[i], body[i + 1] = s2, s1
+                    i += 2
+                    continue
+            i += 1
+        return body
+
+    def generic_visit(self, node):
+        super().generic_visit(node)
+        for fld in ("body", "orelse", "finalbody"):
+            lst = getattr(node, fld, None)
+            if isinstance(lst, list) and lst and isinstance(lst[0], ast.stmt):
+                setattr(node, fld, self._swap(lst))
+        return node
+
+
+def twin_swap_independent(tmp: str) -> None:
+    d = os.path.join(tmp, PKG)
+    for f in os.listdir(d):
+        p = os.path.join(d, f)
+        tree = _SwapIndependent().visit(ast.parse(open(p).read()))
+        ast.fix_missing_locations(tree)
+        src = ast.unparse(tree) + "\n"
+        compile(src, p, "exec")
+        open(p, "w").write(src)
+
+
+EXTRA_TWINS.update({"mirror-compare": twin_mirror_compare, "swap-independent": twin_swap_independent})
+TWINS.update(EXTRA_TWINS)
